@@ -146,7 +146,9 @@ func (c CounterStyle) renderValue(counterValue int, counter *CounterStyleDescrip
 	// Step 2
 	counterRanges := counter.Range.Ranges
 	if counter.Range.Auto || counter.Range.IsNone() {
-		minRange, maxRange := math.MinInt32, math.MaxInt32
+		// "auto" is unbounded : every integer must be in the range of the
+		// last resort (decimal)
+		minRange, maxRange := math.MinInt, math.MaxInt
 		if system == "alphabetic" || system == "symbolic" {
 			minRange = 1
 		} else if system == "additive" {
@@ -316,10 +318,11 @@ func numeric(symbols []pr.NamedString, value int) (string, bool) {
 		return "", false
 	}
 	var reversedParts []string
-	value = utils.Abs(value)
 	L := len(symbols)
 	for value != 0 {
-		reversedParts = append(reversedParts, symbol(symbols[value%L]))
+		// the digits of a negative value are negative : taking the
+		// absolute value of the digit also works for the minimum integer
+		reversedParts = append(reversedParts, symbol(symbols[utils.Abs(value%L)]))
 		value /= L
 	}
 	reverse(reversedParts)
